@@ -37,7 +37,7 @@ def items(tier, seed):
         job_open={'dur': [0, 2, 'never'] if th else [0, 2],
                   'forever': [True]},
         top_open={'window': [1]} if th else {}, nest_open={},
-        extra=_base.X_THASH, k=2 if th else 1, bound=3 if th else 2)
+        extra=_base.X_THASH, k=1, bound=3 if th else 2)
     # every position of a timeout relative to completions, critical raises
     yield from spaces.mk(
         ['flat123'], force='mods',
@@ -46,26 +46,28 @@ def items(tier, seed):
         job_open=JOB if th else {'out': ['raise'], 'critical': [True],
                                  'dur': [0, 2, 'never']},
         top_open={'k': ['nest'], 'critical': [True], 'window': [1]},
-        nest_open={}, extra=_base.X_THASH if th else [], k=3 if th else 2,
+        nest_open={}, extra=_base.X_THASH if th else [], k=2,
         bound=3 if th else 1)
     # nesting: a critical and a non-critical raise inside the nested
     # scheduler, all critical combinations along the chain
-    yield from spaces.mk(
-        ['nest22', 'nest23'] if th else ['nest22'], force='product',
+    for shp, kk in ((['nest22'], 2 if th else 1),) + (
+            ((['nest23'], 1),) if th else ()):
+      yield from spaces.mk(
+        shp, force='product',
         fargs={'parts': [
             ('outcomes', {'where': 'n'}),
             ('mods', {'alts': [[], [('n', 'critical', True)]]}),
             ('mods', {'alts': TOPS})]},
         job_open={'dur': [0, 2]},
         top_open={'timeout': [1, 2]}, nest_open={'timeout': [0, 1, 2]},
-        k=2 if th else 1, bound=2)
+        k=kk, bound=2)
     yield from spaces.mk(
         ['nest21', 'nest22'], force='each_job',
         fargs={'mods': [('out', 'raise'), ('critical', True)]},
         job_open={'dur': [0, 2]},
         top_open={'k': ['nest'], 'critical': [True], 'timeout': [0, 1, 2]},
         nest_open={'critical': [True], 'timeout': [0, 1, 2]},
-        k=3 if th else 2, bound=2)
+        k=2, bound=2)
     yield from spaces.mk(
         ['nest21', 'nest22'] + (['nest32'] if th else []), force='none',
         job_open={'dur': [0, 2, 'never'], 'out': ['raise'],
@@ -81,11 +83,11 @@ def items(tier, seed):
                          ('top', 'critical', True)]]},
         job_open={'out': ['raise'], 'critical': [True]},
         top_open={}, nest_open={'timeout': [1]},
-        k=3 if th else 2, bound=2)
+        k=2, bound=2)
     yield from spaces.mk(
         ['deep3'], force='each_job',
         fargs={'mods': [('out', 'raise'), ('critical', True)]},
         job_open={'dur': [2], 'out': ['raise']},
         top_open={'k': ['nest'], 'critical': [True], 'timeout': [1, 2]},
         nest_open={'critical': [True], 'timeout': [0, 1, 2]},
-        k=3 if th else 2, bound=2)
+        k=2, bound=2)
